@@ -120,16 +120,22 @@ class _Canon(ast.NodeTransformer):
         # one spelling for 1-d joins: array(A + [x]) == append(A, x) == concatenate([A, [x]]);
         # inside a concatenate, array([x]) == [x] and the container may be a tuple
         if name == "array" and len(node.args) == 1 and not node.keywords and isinstance(node.args[0], ast.BinOp) and isinstance(node.args[0].op, ast.Add) and isinstance(node.args[0].right, ast.List):
-            return ast.Call(func=ast.Name(id="concatenate", ctx=ast.Load()), args=[ast.List(elts=[node.args[0].left, node.args[0].right], ctx=ast.Load())], keywords=[])
-        if name == "append" and len(node.args) == 2 and not node.keywords:
-            return ast.Call(func=ast.Name(id="concatenate", ctx=ast.Load()), args=[ast.List(elts=[node.args[0], ast.List(elts=[node.args[1]], ctx=ast.Load())], ctx=ast.Load())], keywords=[])
+            node = ast.Call(func=ast.Name(id="concatenate", ctx=ast.Load()), args=[ast.List(elts=[node.args[0].left, node.args[0].right], ctx=ast.Load())], keywords=[])
+            f, name = node.func, "concatenate"
+        if name == "append" and len(node.args) == 2 and all(k.arg == "axis" for k in node.keywords):
+            node = ast.Call(func=ast.Name(id="concatenate", ctx=ast.Load()), args=[ast.List(elts=[node.args[0], node.args[1]], ctx=ast.Load())], keywords=[k for k in node.keywords if not (isinstance(k.value, ast.Constant) and k.value.value == 0)])
+            f, name = node.func, "concatenate"
         if name == "concatenate" and node.args and isinstance(node.args[0], (ast.List, ast.Tuple)):
+            # pieces: array([x]) == [x] == x (a one-element piece is the element), axis=0 is the default
             elts = []
             for e_ in node.args[0].elts:
                 if isinstance(e_, ast.Call) and isinstance(e_.func, ast.Name) and e_.func.id == "array" and len(e_.args) == 1 and not e_.keywords and isinstance(e_.args[0], ast.List):
                     e_ = e_.args[0]
+                if isinstance(e_, ast.List) and len(e_.elts) == 1:
+                    e_ = e_.elts[0]
                 elts.append(e_)
             node.args = [ast.List(elts=elts, ctx=ast.Load())] + node.args[1:]
+            node.keywords = [k for k in node.keywords if not (k.arg == "axis" and isinstance(k.value, ast.Constant) and k.value.value == 0)]
         # x.sum() == sum(x) (np.sum) and the other argument-free reductions: one spelling
         if isinstance(f, ast.Attribute) and f.attr in ("sum", "argmax", "argmin", "any", "all", "cumsum", "mean", "prod") and not node.args and not node.keywords and not (isinstance(f.value, ast.Name) and f.value.id in ("np", "numpy", "torch", "math")):
             return ast.Call(func=ast.Name(id=f.attr, ctx=ast.Load()), args=[f.value], keywords=[])
